@@ -13,7 +13,7 @@ CHECKS = {
  'C02': dict(level='exploration', design='DESIGN.md §6 C02',
    technique=RM + 'functor call log (unique value ids) recorded at the API boundary, checked offline against post-order evaluation of the reference derivation tree',
    text='Every rule functor, default construction and typed-term functor logs its arguments by unique id; the log of each parse (incl. stacks deeper than 65536) must equal the bottom-up evaluation of the unique derivation tree from the reference driver.',
-   note='reference driver as C01; only grammars whose table matched the reference are judged'),
+   note='reference driver as C01; only grammars whose table matched the reference are judged Fixed probes (harness/term_functor_identity.cpp, api_probes.cpp) cover functor-object identity, stateful functors and functor-less initialisation.'),
  'C03': dict(level='exploration', design='DESIGN.md §6 C03',
    technique=RM + 'automaton built by the real pattern front end and dfa_builder read from memory; language equivalence with a reference DFA (Glushkov + subset construction); every difference replayed through the real matcher',
    text='Tens of thousands (quick) to millions (thorough) of generated patterns plus a fixed corpus are built by the real code at run time and, for a sample, during constant evaluation; each automaton is compared exactly (all 256 byte values) with the reference language. Patterns that need determinisation or have nested loops are keyed to recorded findings; everything else is an obligation.',
@@ -25,7 +25,7 @@ CHECKS = {
  'C05': dict(level='exploration', design='DESIGN.md §6 C05',
    technique=RM + 'dumped parse tables compared cell by cell with a reference table resolved by the documented rule; logged derivations of operator chains compared with the reference and an independent operator-precedence grouping',
    text='Random expression grammars (precedence incl. negative/equal, associativity, explicit [n], prefix/postfix/juxtaposition), dangling-else shapes and generic S/R grammars: every table cell and the grouping of long operator chains must follow the documented resolution.',
-   note='reference as C01; R/R grammars excluded (documented undefined); explicit [0] not generated'),
+   note='reference as C01; R/R grammars excluded (documented undefined); explicit [0] not generated A fixed probe (harness/api_probes.cpp) covers named rule objects reused in two grammars.'),
  'C06': dict(level='exploration', design='DESIGN.md §6 C06',
    technique=RM + 'clang ASan+UBSan builds (thorough: g++ ASan+bounds, libFuzzer, valgrind), bounds-monitoring user buffer, cvector hook and a watchdog on hostile byte inputs',
    text='Conflict-free grammars of many kinds are run on every byte value, whitespace-only, empty, truncated, mutated, random, very long (10^5..10^6 tokens) and deeply nested inputs through three buffer kinds; the standalone matcher runs on matching and non-matching strings. Any sanitizer report, out-of-range access seen by the monitors, exception, abort or hang is a violation.',
@@ -41,7 +41,7 @@ CHECKS = {
  'C09': dict(level='exploration', design='DESIGN.md §6 C09',
    technique=RM + 'complete error-stream text of every parse compared with the single expected message; bounds-monitoring buffer records how far input was examined',
    text='For conflict-free grammars without error rules the stream must be empty on success and contain exactly the one expected message (position, byte or term name) on failure; the furthest byte examined must not lie beyond the offending term.',
-   note='reference as C01'),
+   note='reference as C01 A fixed probe (harness/api_probes.cpp) covers option setters chained on named objects.'),
  'C10': dict(level='exploration', design='DESIGN.md §6 C10',
    technique=RM + 'source points seen by functors and message positions compared with line/column recomputed from byte offsets',
    text='Whitespace-dense inputs, multi-line lexemes, newline/whitespace characters as terms, all four whitespace option sets, positions after recovery: every observed line/column must equal the documented rule applied to the offset.',
@@ -57,7 +57,7 @@ CHECKS = {
  'C13': dict(level='exploration', design='DESIGN.md §6 C13',
    technique=RM + 'context probes (address, constness, mutation counter, copy/move counters) logged by contextual functors and compared with the reference reduction sequence',
    text='Grammars mixing >= and >>= functors under lvalue, const lvalue, temporary and move-only contexts: the very object, with the supplied constness, must reach exactly the >>= functors in reduction order, uncopied; parse == context_parse when the context is ignored.',
-   note='reference as C01'),
+   note='reference as C01 A fixed probe (harness/api_probes.cpp) covers functors returning references into the context.'),
  'C14': dict(level='exploration', design='DESIGN.md §6 C14',
    technique=RM + 'tracked value types with a registry (construction/copy/move/destruction, unique ids); conservation and exactly-once checked after every parse; leak checker in thorough',
    text='On success, failure and recovery paths, with copyable and move-only values: no library-made copy, no value consumed twice or handed over moved-from, every object destroyed exactly once.',
@@ -73,11 +73,11 @@ CHECKS = {
  'C18': dict(level='exploration', design='DESIGN.md §6 C18',
    technique=RM + 'scripted custom lexer that logs every match call; the interleaved log of lexer calls, term functors and rule functors is checked against a trace specification derived from the reference driver',
    text='Exactly one lexer call per needed term at the right position (after the same whitespace skipping) with the right source point, none at end of input or for a pending lookahead; returned index/length honoured exactly (lengths 1..4 and single lexemes of 65535..10^6 bytes); failure answers give Unexpected character.',
-   note='lexer answers in range and non-empty'),
+   note='lexer answers in range and non-empty The functor identity probe (harness/term_functor_identity.cpp) covers the custom term functor object.'),
  'C19': dict(level='exploration', design='DESIGN.md §6 C19',
    technique=RM + 'complete run-time enumeration of the finite space of helper-functor instantiations with tracked arguments under ASan+UBSan',
    text='All 1026 instantiations (arity x position (pair) x value category) are executed; identity/value of the result, copies and moves of every argument and of the container are checked. The space is finite and enumerated completely.',
-   note='arities above 9 are not part of the documented helpers'),
+   note='arities above 9 are not part of the documented helpers Fixed probes cover named helper objects (val) and the identity of stored functor objects; the enumeration is compiled by clang++ and g++.'),
  'C17': dict(level='exploration', design='DESIGN.md §6 C17',
    technique=RM + 'malformed patterns fed to the real pattern parser/builder/analyzer through a bounds-monitoring buffer; generated programs run through the constant evaluators of g++ and clang++ and constructed at run time',
    text='Strings broken in the ways the property names must be refused by parser, builder and size analyzer without reading outside the pattern; regex_term/regex::expr with such patterns and grammars naming undeclared symbols must not be constant expressions and must throw at run time.',
